@@ -94,8 +94,29 @@ fn run_contains(sc: &Value) -> Value {
         }
         y += step;
     }
-    json!({"id": sc["id"], "fam": "contains", "den": sc["den"], "ops": sc["ops"], "rule": sc["rule"],
-           "outcome": outcome, "queries": queries, "results": results})
+    // the same path filled (white on transparent): the surface covers the query grid, shifted so
+    // that the query point (x0 - 2, y0 - 2) is the surface origin; odd lattice points (in half
+    // pixels) are pixel centres
+    let (fw, fh) = ((((x1 - x0) + 5) / 2 + 1) as i32, (((y1 - y0) + 5) / 2 + 1) as i32);
+    let mut fill_pix = Value::Null;
+    if den == 2.0 && fw <= 64 && fh <= 64 {
+        let mut dt = DrawTarget::new(fw, fh);
+        let ox = (x0 - 2) as f32 / den;
+        let oy = (y0 - 2) as f32 / den;
+        let r = std::panic::catch_unwind(std::panic::AssertUnwindSafe(|| {
+            dt.set_transform(&Transform::translation(-ox, -oy));
+            dt.fill(&p, &Source::Solid(SolidSource { r: 255, g: 255, b: 255, a: 255 }), &DrawOptions::new());
+        }));
+        if r.is_ok() {
+            fill_pix = json!(dt.get_data().iter().map(|p| p >> 24).collect::<Vec<u32>>());
+        }
+    }
+    let mut o = json!({"id": sc["id"], "fam": "contains", "den": sc["den"], "ops": sc["ops"], "rule": sc["rule"],
+           "outcome": outcome, "queries": queries, "results": results, "gx": x0 - 2, "gy": y0 - 2, "fw": fw, "fh": fh});
+    if !fill_pix.is_null() {
+        o["fill_alpha"] = fill_pix;
+    }
+    o
 }
 
 fn run_flatten(sc: &Value) -> Value {
